@@ -429,10 +429,23 @@ class Ledger(Monitor):
                 still = [x for x in run.inflight if x["task"] == e.task and x["route"] == e.route]
                 if still:
                     return
-                fstatus = self._items_final(run, e, rec, post)
-                if fstatus is None:
+                cands, may_stay_open = self._items_final(run, e)
+                rst = rec.get("status") if rec else None
+                if rst == "retrying":
+                    fstatus = "failed" if "failed" in cands else (sorted(cands)[0] if cands else "failed")
+                elif rst in COMPLETED:
+                    if rst not in cands:
+                        run.viol("C12", "items_task_status", "with-items task %s: record status %r, item outcomes %r "
+                                 "prescribe %s" % (e.task, rst, {i: it.get("status") for i, it in sorted(e.items.items())},
+                                                   sorted(cands) or "that it stays open"), subject=e.task)
+                    fstatus = rst
+                else:
+                    if not may_stay_open:
+                        run.viol("C12", "items_task_status", "with-items task %s: record status %r after its last "
+                                 "in-flight item reported, item outcomes %r prescribe %s"
+                                 % (e.task, rst, {i: it.get("status") for i, it in sorted(e.items.items())}, sorted(cands)),
+                                 subject=e.task)
                     return
-                n = e.n_items or 0
                 fresult = [e.items[i]["result"] if i in e.items and e.items[i].get("state") == "done" else None
                            for i in range(max(list(e.items) + [-1]) + 1)]
         else:
@@ -484,21 +497,25 @@ class Ledger(Monitor):
                 run.viol("C07", "unreachable_join_error_spurious", "unreachable-join error names %s route %s which has "
                          "%d of %s inbound tasks arrived" % (jn, route, have, need), subject=jn)
 
-    def _items_final(self, run, e, rec, post):
-        """status a with-items execution must have once none of its items is in flight; None = still open"""
+    def _items_final(self, run, e):
+        """(acceptable final statuses, may the task stay open) for a with-items execution none of
+        whose items is in flight.  Under a pause or cancel request the task-level status the engine
+        settles on (failed / canceled / paused) is not fixed by the property, only success is."""
         done = [i for i, it in e.items.items() if it.get("state") == "done"]
         failed = [i for i in done if e.items[i]["status"] in ("failed", "timeout", "abandoned")]
         canceled = [i for i in done if e.items[i]["status"] == "canceled"]
         n = e.n_items if e.n_items is not None else len(e.items)
-        if canceled or run.ctl["cancel_req"]:
-            if len(done) == n and not failed and not canceled:
-                return "succeeded"
-            return "canceled"
+        ok = [i for i in done if e.items[i]["status"] == "succeeded"]
+        stopping = run.ctl["cancel_req"] or run.ctl["pause_req"]
+        if len(ok) >= n:
+            return {"succeeded"}, False
         if failed:
-            return "failed"
-        if len(done) >= n:
-            return "succeeded"
-        return None
+            return ({"failed", "canceled"} if run.ctl["cancel_req"] else {"failed"}), False
+        if canceled:
+            return {"canceled"}, False
+        if run.ctl["cancel_req"]:
+            return {"canceled"}, True
+        return set(), True
 
     def _check_retried_attempt_silent(self, run, ev, e, rec):
         pre, post = ev["pre"]["state"], ev["post"]["state"]
